@@ -986,3 +986,336 @@ Proof.
   split; [apply xwf2_b_sound; vm_compute; reflexivity|].
   vm_compute. repeat split; reflexivity.
 Qed.
+
+(* ================================================================== two concurrent imports, continued (Ledger/ImportProofs7.v) *)
+Require Import MW.Ledger.ImportProofs7.
+
+(* (1) LIVENESS for two rescans.  The setting of C07_two_imports_equal_live; s is ANY point of any history h2 of
+   [xwf2] at which the handler is in step.  Then the worker runs batches for the wallets of the list vs — each
+   element w1 or w2, in ANY interleaving — with no chain event in between ([map XBatch vs]).  The node does not
+   move, the handler stays in step; wallet w_i is READY as soon as its cursor plus (the number of ITS batches in
+   vs) * B exceeds the chain height (nothing is asked of a wallet that is ready already), whatever the other
+   rescan does; and when both are ready the whole database equals the live run of all wallets. *)
+Theorem C07_two_imports_live : forall p g U, (forall b1 b2, In b1 U -> In b2 U -> b_id b1 = b_id b2 -> b1 = b2) ->
+  forall w1 w2, w1 <> w2 -> forall keys0 B cap, 0 < B ->
+  forall pass1 sh1 shs1 pass2 sh2 shs2 c0 n0 all0 st0 st1,
+  ninv g U n0 -> minv p g U w1 keys0 c0 st0 -> status_of st0 w1 = None -> (forall s, ownW w1 keys0 s = None) ->
+  (forall s, In s (sh1 :: shs1) -> lookupN keys0 s = None) ->
+  import_start st0 w1 pass1 (sh1 :: shs1) = Some st1 ->
+  forall h1, xwf p g U w1 B cap {| xs_node := n0; xs_st := st1; xs_all := all0; xs_crashed := false |} h1 ->
+  let s1 := fold_left (xstep repaired p B cap) h1 {| xs_node := n0; xs_st := st1; xs_all := all0; xs_crashed := false |} in
+  forall st2, import_start (xs_st s1) w2 pass2 (sh2 :: shs2) = Some st2 ->
+  (forall s, In s (sh2 :: shs2) -> lookupN (keys0 ++ keys_of w1 (sh1 :: shs1)) s = None) ->
+  let s1' := {| xs_node := xs_node s1; xs_st := st2; xs_all := xs_all s1; xs_crashed := false |} in
+  forall h2 vs, xwf2 p g U w1 w2 B cap s1' h2 ->
+  let s := fold_left (xstep repaired p B cap) h2 s1' in
+  in_step g s -> (forall v, In v vs -> v = w1 \/ v = w2) ->
+  let s' := fold_left (xstep repaired p B cap) (h2 ++ map XBatch vs) s1' in
+  xs_node s' = xs_node s /\ in_step g s' /\
+  (forall v, v = w1 \/ v = w2 ->
+     (forall k, status_of (xs_st s) v = Some (WImporting k) ->
+                chain_height (xs_node s) < k + Z.of_nat (count_occ N.eq_dec vs v) * B) ->
+     status_of (xs_st s') v = Some WReady) /\
+  (status_of (xs_st s') w1 = Some WReady -> status_of (xs_st s') w2 = Some WReady ->
+     equals_live_all p (xs_st s') (xs_node s')).
+Proof. exact two_imports_live. Qed.
+Print Assumptions C07_two_imports_live.
+
+(* the same with the exact bound: m >= 1 batches of its own and cursor + m * B >= height suffice (the form above
+   follows: a cursor never exceeds the height) *)
+Theorem C07_two_imports_live_tight : forall p g U, (forall b1 b2, In b1 U -> In b2 U -> b_id b1 = b_id b2 -> b1 = b2) ->
+  forall w1 w2, w1 <> w2 -> forall keys0 B cap, 0 < B ->
+  forall pass1 sh1 shs1 pass2 sh2 shs2 c0 n0 all0 st0 st1,
+  ninv g U n0 -> minv p g U w1 keys0 c0 st0 -> status_of st0 w1 = None -> (forall s, ownW w1 keys0 s = None) ->
+  (forall s, In s (sh1 :: shs1) -> lookupN keys0 s = None) ->
+  import_start st0 w1 pass1 (sh1 :: shs1) = Some st1 ->
+  forall h1, xwf p g U w1 B cap {| xs_node := n0; xs_st := st1; xs_all := all0; xs_crashed := false |} h1 ->
+  let s1 := fold_left (xstep repaired p B cap) h1 {| xs_node := n0; xs_st := st1; xs_all := all0; xs_crashed := false |} in
+  forall st2, import_start (xs_st s1) w2 pass2 (sh2 :: shs2) = Some st2 ->
+  (forall s, In s (sh2 :: shs2) -> lookupN (keys0 ++ keys_of w1 (sh1 :: shs1)) s = None) ->
+  let s1' := {| xs_node := xs_node s1; xs_st := st2; xs_all := xs_all s1; xs_crashed := false |} in
+  forall h2 vs, xwf2 p g U w1 w2 B cap s1' h2 ->
+  let s := fold_left (xstep repaired p B cap) h2 s1' in
+  in_step g s -> (forall v, In v vs -> v = w1 \/ v = w2) ->
+  let s' := fold_left (xstep repaired p B cap) (h2 ++ map XBatch vs) s1' in
+  xs_node s' = xs_node s /\ in_step g s' /\
+  (forall v, v = w1 \/ v = w2 ->
+     (forall k, status_of (xs_st s) v = Some (WImporting k) ->
+                (0 < count_occ N.eq_dec vs v)%nat /\
+                chain_height (xs_node s) <= k + Z.of_nat (count_occ N.eq_dec vs v) * B) ->
+     status_of (xs_st s') v = Some WReady) /\
+  (status_of (xs_st s') w1 = Some WReady -> status_of (xs_st s') w2 = Some WReady ->
+     equals_live_all p (xs_st s') (xs_node s')).
+Proof. exact two_imports_live_tight. Qed.
+Print Assumptions C07_two_imports_live_tight.
+
+(* the step behind it, on the invariant: in step, the batches of w1 among vs advance ITS cursor by B each *)
+Theorem C07_two_batches_in_step : forall p g U, (forall b1 b2, In b1 U -> In b2 U -> b_id b1 = b_id b2 -> b1 = b2) ->
+  forall keysA B, 0 < B -> forall w1 w2, w1 <> w2 -> forall n vs st, ninv g U n -> (forall v, In v vs -> v = w1 \/ v = w2) ->
+  minv2 p g U w1 w2 keysA n st ->
+  (status_of st w1 = Some WReady \/
+   exists k, status_of st w1 = Some (WImporting k) /\ (0 < count_occ N.eq_dec vs w1)%nat /\
+             chain_height n <= k + Z.of_nat (count_occ N.eq_dec vs w1) * B) ->
+  status_of (bruns p B n st vs) w1 = Some WReady.
+Proof. exact bruns_live_1. Qed.
+Print Assumptions C07_two_batches_in_step.
+
+(* (2) FRAME for two imports, absolute, on the invariant: at any moment every wallet v other than w1 and w2 holds
+   exactly its credits (spent marks included) of the chain c the handler follows and reports what c says *)
+Theorem C07_two_invariant_frame : forall p g U w1 w2 keysA c st v, minv2 p g U w1 w2 keysA c st -> v <> w1 -> v <> w2 ->
+  proj v (credits (x_w st)) = proj v (credits (L p (lookupN keysA) c)) /\
+  xreport st v = spec_report p (lookupN keysA) c v.
+Proof. exact minv2_frame. Qed.
+Print Assumptions C07_two_invariant_frame.
+
+(* ... along every history: the ledger of the keys the database had BEFORE the two restores (keys0) *)
+Theorem C07_two_imports_frame : forall p g U, (forall b1 b2, In b1 U -> In b2 U -> b_id b1 = b_id b2 -> b1 = b2) ->
+  forall w1 w2, w1 <> w2 -> forall keys0 B cap, 0 < B ->
+  forall pass1 sh1 shs1 pass2 sh2 shs2 c0 n0 all0 st0 st1,
+  ninv g U n0 -> minv p g U w1 keys0 c0 st0 -> status_of st0 w1 = None -> (forall s, ownW w1 keys0 s = None) ->
+  (forall s, In s (sh1 :: shs1) -> lookupN keys0 s = None) ->
+  import_start st0 w1 pass1 (sh1 :: shs1) = Some st1 ->
+  forall h1, xwf p g U w1 B cap {| xs_node := n0; xs_st := st1; xs_all := all0; xs_crashed := false |} h1 ->
+  let s1 := fold_left (xstep repaired p B cap) h1 {| xs_node := n0; xs_st := st1; xs_all := all0; xs_crashed := false |} in
+  forall st2, import_start (xs_st s1) w2 pass2 (sh2 :: shs2) = Some st2 ->
+  (forall s, In s (sh2 :: shs2) -> lookupN (keys0 ++ keys_of w1 (sh1 :: shs1)) s = None) ->
+  let s1' := {| xs_node := xs_node s1; xs_st := st2; xs_all := xs_all s1; xs_crashed := false |} in
+  forall h2, xwf2 p g U w1 w2 B cap s1' h2 ->
+  let s := fold_left (xstep repaired p B cap) h2 s1' in
+  exists c, wf_chain c /\ synced (x_w (xs_st s)) = synced_of c /\
+    forall v, v <> w1 -> v <> w2 ->
+      proj v (credits (x_w (xs_st s))) = proj v (credits (L p (lookupN keys0) c)) /\
+      xreport (xs_st s) v = spec_report p (lookupN keys0) c v.
+Proof. exact two_imports_frame. Qed.
+Print Assumptions C07_two_imports_frame.
+
+(* (2) FRAME, relative: sN is the SAME history (h1, then h2: the same chain events, the same batch events) applied
+   to the database st0 in which NEITHER wallet was restored — both ImportWallet calls left out; the batches of w1
+   and w2 are no-ops there.  At the end of every h2: same node, same synced chain, and every wallet other than
+   w1 and w2 has the same credits (spent marks included) and the same report.  (That w2 is unknown to st0 is not
+   assumed: it follows from the second restore being accepted.) *)
+Theorem C07_two_imports_frame_vs_no_import : forall p g U, (forall b1 b2, In b1 U -> In b2 U -> b_id b1 = b_id b2 -> b1 = b2) ->
+  forall w1 w2, w1 <> w2 -> forall keys0 B cap, 0 < B ->
+  forall pass1 sh1 shs1 pass2 sh2 shs2 c0 n0 all0 st0 st1,
+  ninv g U n0 -> minv p g U w1 keys0 c0 st0 -> status_of st0 w1 = None -> (forall s, ownW w1 keys0 s = None) ->
+  import_start st0 w1 pass1 (sh1 :: shs1) = Some st1 ->
+  forall h1, xwf p g U w1 B cap {| xs_node := n0; xs_st := st1; xs_all := all0; xs_crashed := false |} h1 ->
+  let s1 := fold_left (xstep repaired p B cap) h1 {| xs_node := n0; xs_st := st1; xs_all := all0; xs_crashed := false |} in
+  forall st2, import_start (xs_st s1) w2 pass2 (sh2 :: shs2) = Some st2 ->
+  let s1' := {| xs_node := xs_node s1; xs_st := st2; xs_all := xs_all s1; xs_crashed := false |} in
+  forall all0' h2, xwf2 p g U w1 w2 B cap s1' h2 ->
+  let s := fold_left (xstep repaired p B cap) h2 s1' in
+  let sN := fold_left (xstep repaired p B cap) (h1 ++ h2) {| xs_node := n0; xs_st := st0; xs_all := all0'; xs_crashed := false |} in
+  xs_node s = xs_node sN /\ synced (x_w (xs_st s)) = synced (x_w (xs_st sN)) /\
+  forall v, v <> w1 -> v <> w2 ->
+    proj v (credits (x_w (xs_st s))) = proj v (credits (x_w (xs_st sN))) /\
+    xreport (xs_st s) v = xreport (xs_st sN) v.
+Proof. exact two_imports_frame_vs_no_import. Qed.
+Print Assumptions C07_two_imports_frame_vs_no_import.
+
+(* the pair invariant behind it is kept by every event of [xwf2]; an announcement moves both runs to the same chain *)
+Theorem C07_two_pair_step : forall p g U, (forall b1 b2, In b1 U -> In b2 U -> b_id b1 = b_id b2 -> b1 = b2) ->
+  forall w1 w2, w1 <> w2 -> forall B cap, 0 < B -> forall keys0 keysX s s2 e,
+  pinv2 p g U w1 w2 keys0 keysX s s2 -> ev_ok2 g U w1 w2 s e ->
+  pinv2 p g U w1 w2 keys0 keysX (xstep repaired p B cap s e) (xstep repaired p B cap s2 e).
+Proof. exact pinv2_step. Qed.
+Print Assumptions C07_two_pair_step.
+
+(* (3) a shared transaction is recorded ONCE, two rescans running: C07_records_once_multi for [xwf2] histories
+   (extra premise as there: the records of the database the wallets are restored into are duplicate-free;
+   C07_reachable_records_nodup gives it from genesis).  (i) duplicate-free records at EVERY point; (ii) at every
+   point the creator of every credit and the spender of every spent mark is recorded once in the record of its
+   block of the handler's chain; (iii) in step and both handed over: every transaction of the node's chain that is
+   relevant to some wallet of the database is recorded exactly once — also one shared by the two restored wallets. *)
+Theorem C07_records_once_two : forall p g U, (forall b1 b2, In b1 U -> In b2 U -> b_id b1 = b_id b2 -> b1 = b2) ->
+  forall w1 w2, w1 <> w2 -> forall keys0 B cap, 0 < B ->
+  forall pass1 sh1 shs1 pass2 sh2 shs2 c0 n0 all0 st0 st1,
+  ninv g U n0 -> minv p g U w1 keys0 c0 st0 -> status_of st0 w1 = None -> (forall s, ownW w1 keys0 s = None) ->
+  (forall s, In s (sh1 :: shs1) -> lookupN keys0 s = None) ->
+  import_start st0 w1 pass1 (sh1 :: shs1) = Some st1 ->
+  forall h1, xwf p g U w1 B cap {| xs_node := n0; xs_st := st1; xs_all := all0; xs_crashed := false |} h1 ->
+  let s1 := fold_left (xstep repaired p B cap) h1 {| xs_node := n0; xs_st := st1; xs_all := all0; xs_crashed := false |} in
+  forall st2, import_start (xs_st s1) w2 pass2 (sh2 :: shs2) = Some st2 ->
+  (forall s, In s (sh2 :: shs2) -> lookupN (keys0 ++ keys_of w1 (sh1 :: shs1)) s = None) ->
+  brs_nodup (x_brecs st0) ->
+  let s1' := {| xs_node := xs_node s1; xs_st := st2; xs_all := xs_all s1; xs_crashed := false |} in
+  forall h2, xwf2 p g U w1 w2 B cap s1' h2 ->
+  let s := fold_left (xstep repaired p B cap) h2 s1' in
+  brs_nodup (x_brecs (xs_st s)) /\
+  (exists c, minv2 p g U w1 w2 ((keys0 ++ keys_of w1 (sh1 :: shs1)) ++ keys_of w2 (sh2 :: shs2)) c (xs_st s) /\
+     forall cr b, In cr (credits (x_w (xs_st s))) -> In b c ->
+       (c_height cr = b_height b -> recorded_once (x_brecs (xs_st s)) (b_height b) (b_id b) (c_tx cr)) /\
+       (forall tid i, c_spent cr = Some (tid, i, b_height b) -> recorded_once (x_brecs (xs_st s)) (b_height b) (b_id b) tid)) /\
+  (in_step g s -> status_of (xs_st s) w1 = Some WReady -> status_of (xs_st s) w2 = Some WReady ->
+   forall b t, In b (xs_node s) -> In t (b_txs b) ->
+     pays_db (xs_st s) t \/ spends_marked (xs_st s) b t \/ spends_chain (xs_st s) (xs_node s) t ->
+     recorded_once (x_brecs (xs_st s)) (b_height b) (b_id b) (t_id t)).
+Proof. exact two_imports_records_once. Qed.
+Print Assumptions C07_records_once_two.
+
+(* (4) FROM GENESIS: no premise about the database is left.  hg ([gwf], C07_reachable_start) creates the other
+   wallets, issues their addresses and lets them follow the moving chain from the empty instance; w1 (absent so
+   far, its script hashes unknown) is restored; ANY history h1 of [xwf]; w2 (absent at that moment — whether or
+   not the rescan of w1 is still running —, its script hashes unknown) is restored: the request is ACCEPTED (part of
+   the proof); ANY history h2 of [xwf2].  Conclusions of C07_two_imports_equal_live. *)
+Theorem C07_two_imports_from_genesis : forall p g U, (forall b1 b2, In b1 U -> In b2 U -> b_id b1 = b_id b2 -> b1 = b2) ->
+  forall B cap, 0 < B -> forall n0 hg, ninv g U n0 -> gwf p g U B cap n0 (xinit_sim n0) hg ->
+  forall w1 w2, w1 <> w2 -> forall pass1 sh1 shs1 pass2 sh2 shs2,
+  let sg := xrun repaired p B cap n0 hg in
+  status_of (xs_st sg) w1 = None ->
+  (forall s, In s (sh1 :: shs1) -> lookupN (x_keys (xs_st sg)) s = None) ->
+  let sa := xstep repaired p B cap sg (XImportStart w1 pass1 (sh1 :: shs1)) in
+  forall h1, xwf p g U w1 B cap sa h1 ->
+  let s1 := fold_left (xstep repaired p B cap) h1 sa in
+  status_of (xs_st s1) w2 = None ->
+  (forall s, In s (sh2 :: shs2) -> lookupN (x_keys (xs_st sg) ++ keys_of w1 (sh1 :: shs1)) s = None) ->
+  forall h2, xwf2 p g U w1 w2 B cap (xstep repaired p B cap s1 (XImportStart w2 pass2 (sh2 :: shs2))) h2 ->
+  let s := xrun repaired p B cap n0 (hg ++ XImportStart w1 pass1 (sh1 :: shs1) :: h1 ++ XImportStart w2 pass2 (sh2 :: shs2) :: h2) in
+  sinv2 p g U w1 w2 ((x_keys (xs_st sg) ++ keys_of w1 (sh1 :: shs1)) ++ keys_of w2 (sh2 :: shs2)) s /\
+  (in_step g s -> status_of (xs_st s) w1 = Some WReady -> status_of (xs_st s) w2 = Some WReady ->
+     equals_live_all p (xs_st s) (xs_node s)) /\
+  (forall v, v = w1 \/ v = w2 -> status_of (xs_st s) v <> Some WReady -> use_wallet (xs_st s) v = UUnready) /\
+  x_dead (xs_st s) = [] /\ xs_crashed s = false.
+Proof. exact two_imports_from_genesis. Qed.
+Print Assumptions C07_two_imports_from_genesis.
+
+(* ... with the liveness of (1) *)
+Theorem C07_two_imports_live_from_genesis : forall p g U, (forall b1 b2, In b1 U -> In b2 U -> b_id b1 = b_id b2 -> b1 = b2) ->
+  forall B cap, 0 < B -> forall n0 hg, ninv g U n0 -> gwf p g U B cap n0 (xinit_sim n0) hg ->
+  forall w1 w2, w1 <> w2 -> forall pass1 sh1 shs1 pass2 sh2 shs2,
+  let sg := xrun repaired p B cap n0 hg in
+  status_of (xs_st sg) w1 = None ->
+  (forall s, In s (sh1 :: shs1) -> lookupN (x_keys (xs_st sg)) s = None) ->
+  let sa := xstep repaired p B cap sg (XImportStart w1 pass1 (sh1 :: shs1)) in
+  forall h1, xwf p g U w1 B cap sa h1 ->
+  let s1 := fold_left (xstep repaired p B cap) h1 sa in
+  status_of (xs_st s1) w2 = None ->
+  (forall s, In s (sh2 :: shs2) -> lookupN (x_keys (xs_st sg) ++ keys_of w1 (sh1 :: shs1)) s = None) ->
+  forall h2 vs, xwf2 p g U w1 w2 B cap (xstep repaired p B cap s1 (XImportStart w2 pass2 (sh2 :: shs2))) h2 ->
+  let s := xrun repaired p B cap n0 (hg ++ XImportStart w1 pass1 (sh1 :: shs1) :: h1 ++ XImportStart w2 pass2 (sh2 :: shs2) :: h2) in
+  in_step g s -> (forall v, In v vs -> v = w1 \/ v = w2) ->
+  let s' := xrun repaired p B cap n0 (hg ++ XImportStart w1 pass1 (sh1 :: shs1) :: h1 ++ XImportStart w2 pass2 (sh2 :: shs2) :: h2 ++ map XBatch vs) in
+  xs_node s' = xs_node s /\ in_step g s' /\
+  (forall v, v = w1 \/ v = w2 ->
+     (forall k, status_of (xs_st s) v = Some (WImporting k) ->
+                chain_height (xs_node s) < k + Z.of_nat (count_occ N.eq_dec vs v) * B) ->
+     status_of (xs_st s') v = Some WReady) /\
+  (status_of (xs_st s') w1 = Some WReady -> status_of (xs_st s') w2 = Some WReady ->
+     equals_live_all p (xs_st s') (xs_node s')).
+Proof. exact two_imports_live_from_genesis. Qed.
+Print Assumptions C07_two_imports_live_from_genesis.
+
+Theorem C07_two_imports_live_tight_from_genesis : forall p g U, (forall b1 b2, In b1 U -> In b2 U -> b_id b1 = b_id b2 -> b1 = b2) ->
+  forall B cap, 0 < B -> forall n0 hg, ninv g U n0 -> gwf p g U B cap n0 (xinit_sim n0) hg ->
+  forall w1 w2, w1 <> w2 -> forall pass1 sh1 shs1 pass2 sh2 shs2,
+  let sg := xrun repaired p B cap n0 hg in
+  status_of (xs_st sg) w1 = None ->
+  (forall s, In s (sh1 :: shs1) -> lookupN (x_keys (xs_st sg)) s = None) ->
+  let sa := xstep repaired p B cap sg (XImportStart w1 pass1 (sh1 :: shs1)) in
+  forall h1, xwf p g U w1 B cap sa h1 ->
+  let s1 := fold_left (xstep repaired p B cap) h1 sa in
+  status_of (xs_st s1) w2 = None ->
+  (forall s, In s (sh2 :: shs2) -> lookupN (x_keys (xs_st sg) ++ keys_of w1 (sh1 :: shs1)) s = None) ->
+  forall h2 vs, xwf2 p g U w1 w2 B cap (xstep repaired p B cap s1 (XImportStart w2 pass2 (sh2 :: shs2))) h2 ->
+  let s := xrun repaired p B cap n0 (hg ++ XImportStart w1 pass1 (sh1 :: shs1) :: h1 ++ XImportStart w2 pass2 (sh2 :: shs2) :: h2) in
+  in_step g s -> (forall v, In v vs -> v = w1 \/ v = w2) ->
+  let s' := xrun repaired p B cap n0 (hg ++ XImportStart w1 pass1 (sh1 :: shs1) :: h1 ++ XImportStart w2 pass2 (sh2 :: shs2) :: h2 ++ map XBatch vs) in
+  xs_node s' = xs_node s /\ in_step g s' /\
+  (forall v, v = w1 \/ v = w2 ->
+     (forall k, status_of (xs_st s) v = Some (WImporting k) ->
+                (0 < count_occ N.eq_dec vs v)%nat /\
+                chain_height (xs_node s) <= k + Z.of_nat (count_occ N.eq_dec vs v) * B) ->
+     status_of (xs_st s') v = Some WReady) /\
+  (status_of (xs_st s') w1 = Some WReady -> status_of (xs_st s') w2 = Some WReady ->
+     equals_live_all p (xs_st s') (xs_node s')).
+Proof. exact two_imports_live_tight_from_genesis. Qed.
+Print Assumptions C07_two_imports_live_tight_from_genesis.
+
+(* the hypotheses of the from-genesis theorems are satisfiable: the history of C07_two_imports_instance, started
+   from the empty instance on [g0] (batch size 1 throughout); and the liveness premise: at the point after the
+   reorganisation was processed (first 6 events of hist_two) the handler is in step, the cursors are at 2 and 1,
+   the height is 3, and the rest of hist_two is [map XBatch [3; 2; 3; 3]]: the premise of the exact form of (1) holds for both
+   (wallet 2: one batch of its own, 3 <= 2 + 1; wallet 3: three, 3 <= 1 + 3) *)
+Example C07_two_from_genesis_instance :
+  ninv g0 U_two [g0] /\ gwf p0 g0 U_two 1 20000 [g0] (xinit_sim [g0]) hist_shared_pre /\
+  let sg := xrun repaired p0 1 20000 [g0] hist_shared_pre in
+  status_of (xs_st sg) 2 = None /\ (forall s, In s [2%N] -> lookupN (x_keys (xs_st sg)) s = None) /\
+  let sa := xstep repaired p0 1 20000 sg (XImportStart 2 22 [2%N]) in
+  xwf p0 g0 U_two 2 1 20000 sa [XBatch 2] /\
+  let s1 := fold_left (xstep repaired p0 1 20000) [XBatch 2] sa in
+  status_of (xs_st s1) 2 = Some (WImporting 1) /\ status_of (xs_st s1) 3 = None /\
+  (forall s, In s [9%N] -> lookupN (x_keys (xs_st sg) ++ keys_of 2 [2%N]) s = None) /\
+  xwf2 p0 g0 U_two 2 3 1 20000 (xstep repaired p0 1 20000 s1 (XImportStart 3 33 [9%N])) hist_two /\
+  (let s := xrun repaired p0 1 20000 [g0] (hist_shared_pre ++ XImportStart 2 22 [2%N] :: [XBatch 2] ++ XImportStart 3 33 [9%N] :: firstn 6 hist_two) in
+   in_step g0 s /\ chain_height (xs_node s) = 3 /\
+   status_of (xs_st s) 2 = Some (WImporting 2) /\ status_of (xs_st s) 3 = Some (WImporting 1) /\
+   skipn 6 hist_two = map XBatch [3%N; 2%N; 3%N; 3%N] /\
+   (0 < count_occ N.eq_dec [3%N; 2%N; 3%N; 3%N] 2%N)%nat /\ 3 <= 2 + Z.of_nat (count_occ N.eq_dec [3%N; 2%N; 3%N; 3%N] 2%N) * 1 /\
+   (0 < count_occ N.eq_dec [3%N; 2%N; 3%N; 3%N] 3%N)%nat /\ 3 <= 1 + Z.of_nat (count_occ N.eq_dec [3%N; 2%N; 3%N; 3%N] 3%N) * 1) /\
+  let s := xrun repaired p0 1 20000 [g0] (hist_shared_pre ++ XImportStart 2 22 [2%N] :: [XBatch 2] ++ XImportStart 3 33 [9%N] :: hist_two) in
+  in_step g0 s /\ status_of (xs_st s) 2 = Some WReady /\ status_of (xs_st s) 3 = Some WReady /\
+  r_total (xreport (xs_st s) 1) = 60 /\ r_total (xreport (xs_st s) 2) = 40 /\ r_total (xreport (xs_st s) 3) = 1005.
+Proof.
+  cbv zeta.
+  split; [split; [apply wf_chain_b_sound; vm_compute; reflexivity|split; [exists []; reflexivity|intros z [<-|[]]; left; reflexivity]]|].
+  split; [apply gwf_b_sound; vm_compute; reflexivity|].
+  split; [vm_compute; reflexivity|].
+  split; [intros s [<-|[]]; vm_compute; reflexivity|].
+  split; [apply xwf_b_sound; vm_compute; reflexivity|].
+  split; [vm_compute; reflexivity|]. split; [vm_compute; reflexivity|].
+  split; [intros s [<-|[]]; vm_compute; reflexivity|].
+  split; [apply xwf2_b_sound; vm_compute; reflexivity|].
+  split; [|vm_compute; repeat split; reflexivity].
+  repeat split; try (vm_compute; reflexivity); try (vm_compute; discriminate); vm_compute; repeat constructor.
+Qed.
+
+(* (5) THREE concurrent imports, a closed instance (no general theorem for n rescans is claimed).  The node has
+   the chain of the shared-transaction example; the database is EMPTY (no wallet).  Batch size 1.  Wallet 1
+   (script hash 1) is restored, one batch; wallet 2 (script hash 2) is restored, a batch of 2, a batch of 1;
+   wallet 3 (script hash 9) is restored: now all three are importing (cursors 2, 1, 0); batches of 3 and 2; the node
+   reorganises block 3 away (3' pays wallet 3 another 5); a batch of 1 finds the node off the handler's chain at
+   height 3 and is refused, a batch of 3 (heights up to 2, common to both branches) is committed; the
+   announcement of 3' is processed (all three cursors stay <= 2); batches of 3, 1, 2.  At the end the handler is
+   in step, all three are ready, and the database equals the live run of all three wallets over the node's chain:
+   same synced chain, the credit list is a permutation of the live ledger's (the ORDER differs: the rescans
+   inserted in another order), every wallet's credits are the live ones in the same order with the same spent
+   marks (wallet 2's coin of block 1, spent by T — a transaction that also pays wallet 1 —, is marked spent),
+   every report is the chain specification; T and the coinbase of block 1 (shared by wallets 2 and 3) are
+   recorded once. *)
+Definition hist_three : list xevent :=
+  [XImportStart 1 11 [1%N]; XBatch 1; XImportStart 2 22 [2%N]; XBatch 2; XBatch 1; XImportStart 3 33 [9%N]; XBatch 3;
+   XBatch 2; XDetach; XAttach tb3'; XBatch 1; XBatch 3; XProcess tb3'; XBatch 3; XBatch 1; XBatch 2].
+
+Example C07_three_imports_instance :
+  (let s := xrun repaired p0 1 20000 shared_chain (firstn 6 hist_three) in
+   x_status (xs_st s) = [(1%N, WImporting 2); (2%N, WImporting 1); (3%N, WImporting 0)]) /\
+  (let s := xrun repaired p0 1 20000 shared_chain (firstn 11 hist_three) in
+   ~ in_step g0 s /\ x_status (xs_st s) = [(1%N, WImporting 2); (2%N, WImporting 2); (3%N, WImporting 1)]) /\
+  let s := xrun repaired p0 1 20000 shared_chain hist_three in
+  in_step g0 s /\ xs_node s = [g0; sb1; sb2; tb3'] /\ xs_crashed s = false /\
+  x_status (xs_st s) = [(1%N, WReady); (2%N, WReady); (3%N, WReady)] /\
+  (exists live, ledger_of_chain p0 true (key_owner (xs_st s)) (xs_node s) = Ok live /\
+     synced (x_w (xs_st s)) = synced live /\
+     Permutation (credits (x_w (xs_st s))) (credits live) /\
+     map c_tx (credits (x_w (xs_st s))) <> map c_tx (credits live) /\
+     forall v, In v [1%N; 2%N; 3%N] ->
+       proj v (credits (x_w (xs_st s))) = proj v (credits live) /\
+       xreport (xs_st s) v = spec_report p0 (key_owner (xs_st s)) (xs_node s) v) /\
+  r_total (xreport (xs_st s) 1) = 60 /\ r_total (xreport (xs_st s) 2) = 40 /\ r_total (xreport (xs_st s) 3) = 1005 /\
+  x_brecs (xs_st s) = [{| br_h := 1; br_bid := 1; br_txs := [1%N] |}; {| br_h := 2; br_bid := 2; br_txs := [5%N] |};
+                       {| br_h := 3; br_bid := 13; br_txs := [13%N] |}].
+Proof.
+  cbv zeta. split; [vm_compute; reflexivity|].
+  split; [split; [vm_compute; discriminate|vm_compute; reflexivity]|].
+  split; [vm_compute; reflexivity|]. split; [vm_compute; reflexivity|]. split; [vm_compute; reflexivity|].
+  split; [vm_compute; reflexivity|].
+  split.
+  - eexists. split; [vm_compute; reflexivity|]. split; [vm_compute; reflexivity|]. split; [|split].
+    + assert (Hd : forall x, isw 2 x = true -> isw 1 x = false) by (apply disj12; discriminate).
+      eapply Permutation_trans; [apply (perm3 (isw 1) (isw 2) _ Hd)|].
+      eapply Permutation_trans; [|apply Permutation_sym; apply (perm3 (isw 1) (isw 2) _ Hd)].
+      vm_compute. apply Permutation_refl.
+    + vm_compute. discriminate.
+    + intros v [<-|[<-|[<-|[]]]]; vm_compute; split; reflexivity.
+  - vm_compute. repeat split; reflexivity.
+Qed.
